@@ -50,6 +50,8 @@ type Config struct {
 	Validate   int               `json:"validate_vectors"`
 	Opaque     []string          `json:"opaque"` // callees replaced by "returns the zero value"
 	opaque     map[string]bool
+	Watch       []string `json:"watch"`        // two-thread mode: functions (name prefixes) with preemption points
+	MaxSwitches int      `json:"max_switches"` // two-thread mode: bound on context switches
 	OpaquePkgs []string `json:"opaque_pkgs"` // every function of these packages returns the zero value
 	opaquePkg  map[string]bool
 
@@ -525,6 +527,11 @@ func runPath(cfg *Config, run *Run, entry *ssa.Function) (end pathEnd) {
 				stack := string(debug.Stack())
 				end = pathEnd{kind: "UNSUPPORTED", msg: fmt.Sprintf("engine panic: %v @ %s [%s]", r, shortStack(stack), i.stack(6))}
 			}
+		}
+	}()
+	defer func() {
+		if run.threads != nil {
+			run.threads.stop()
 		}
 	}()
 	// package initialisation (only the interpreted set), in dependency order via the harness package
